@@ -245,7 +245,43 @@ pub fn engine_auth(cases: Vec<Value>, out: &mut NdjsonOut) {
                 break;
             }
         }
-        // ---- free run to the end
+        // ---- completion: the contenders that have not settled finish ONE AT A TIME (the others stay parked), every
+        //      arrival probed, so that nothing races unobserved after the forced part
+        if !sched.is_empty() {
+            let mut k = steps.len();
+            for &a in &ids {
+                let deadline = Instant::now() + Duration::from_secs(5);
+                loop {
+                    if hub.is_finished(a) || Instant::now() >= deadline {
+                        break;
+                    }
+                    if let Arrival::At(name, _) = hub.wait_arrival(a, Duration::from_millis(1)) {
+                        if name == "auth.h.idle" {
+                            break;
+                        }
+                    }
+                    hub.grant(a);
+                    hub.wait_departed(a, Duration::from_secs(2));
+                    match hub.wait_arrival(a, deadline.saturating_duration_since(Instant::now()).max(Duration::from_millis(1))) {
+                        Arrival::At(name, _) => {
+                            steps.push(json!({"k": k, "a": procs[(a - 1) as usize], "to": "?", "target": "?", "arrived": name, "passed_n": 0, "passed": [], "ok": true,
+                                              "completion": true, "probe": probe(&data)}));
+                            k += 1;
+                            if name == "auth.h.idle" {
+                                break;
+                            }
+                        }
+                        Arrival::Finished => {
+                            steps.push(json!({"k": k, "a": procs[(a - 1) as usize], "to": "?", "target": "?", "arrived": "finished", "passed_n": 0, "passed": [], "ok": true,
+                                              "completion": true, "probe": probe(&data)}));
+                            k += 1;
+                            break;
+                        }
+                        Arrival::Timeout => break,
+                    }
+                }
+            }
+        }
         hub.note(json!({"ev": "h.free"}));
         hub.gate_end();
         let mut results = serde_json::Map::new();
